@@ -128,6 +128,21 @@ def _provably_distinct(k1, k2):
     return False
 
 
+class Vec:
+    """element-wise lifted whole-array expression: f(index tuple) -> element"""
+
+    def __init__(self, f):
+        self.f = f
+
+
+def _elem(v, ix):
+    if isinstance(v, Arr):
+        return v.read(list(ix))
+    if isinstance(v, Vec):
+        return v.f(ix)
+    return v
+
+
 class ShapeOf:
     def __init__(self, arrname):
         self.name = arrname
@@ -162,8 +177,14 @@ class SymExec:
             raise Undecided(f"unknown name `{e.id}`")
         if isinstance(e, ast.BinOp):
             a, b = self.ev(e.left), self.ev(e.right)
-            if isinstance(a, Arr) or isinstance(b, Arr):
-                raise Undecided(f"whole-array arithmetic `{src(e)[:50]}`")
+            if isinstance(a, (Arr, Vec)) or isinstance(b, (Arr, Vec)):
+                node = e
+
+                def f(ix, a=a, b=b, node=node):
+                    return self.binop(node.op, _elem(a, ix), _elem(b, ix), node)
+                return Vec(f)
+            return self.binop(e.op, a, b, e)
+        if False:
             op = e.op
             if isinstance(op, ast.Add):
                 return a + b
@@ -230,6 +251,25 @@ class SymExec:
         if isinstance(e, ast.IfExp):
             return ITE(self.ev(e.test), self.ev(e.body), self.ev(e.orelse))
         raise Undecided(f"expression kind `{src(e)[:50]}`")
+
+    def binop(self, op, a, b, e):
+        if isinstance(op, ast.Add):
+            return a + b
+        if isinstance(op, ast.Sub):
+            return a - b
+        if isinstance(op, ast.Mult):
+            return a * b
+        if isinstance(op, ast.Div):
+            return a / b
+        if isinstance(op, ast.Pow):
+            return a ** b
+        if isinstance(op, ast.Mod):
+            if sp.simplify(b - 2 * PI) == 0:
+                return Wrap(a)
+            return Function("mod")(a, b)
+        if isinstance(op, ast.FloorDiv):
+            return sp.floor(a / b)
+        raise Undecided(f"operator in `{src(e)[:50]}`")
 
     def rel(self, op, a, b):
         if isinstance(op, ast.Lt):
@@ -364,6 +404,11 @@ class SymExec:
             base = self.ev(t.value)
             if not isinstance(base, Arr):
                 raise Undecided(f"store into `{src(t)[:40]}`")
+            if isinstance(t.slice, ast.Slice) and t.slice.lower is None and t.slice.upper is None and isinstance(val, (Vec, Arr)):
+                v = val
+                base.cells = {}
+                base.generic = (lambda ix, v=v: _elem(v, ix))
+                return
             if isinstance(t.slice, ast.Slice) or (isinstance(t.slice, ast.Tuple) and any(isinstance(x, ast.Slice) for x in t.slice.elts)):
                 raise Undecided(f"slice store `{src(t)[:40]}`")
             base.write(self.index(t.slice), val)
